@@ -98,6 +98,10 @@ func (f *Fact) Join(a string, b string) string { f.on("Join", a, b); return Join
 func (f *Fact) Level() int64  { f.on("Level"); return f.I }
 func (f *Fact) Label() string { f.on("Label"); return f.S }
 
+// LabelOf depends on the field S as well; its call text carries a string literal (possibly with a space
+// in it), and it is that exact text a rule announces when it changes S.
+func (f *Fact) LabelOf(p string) string { f.on("LabelOf", p); return p + ":" + f.S }
+
 // Methods that always panic (natural faults of C14): with a string value and with an error value.
 
 func (f *Fact) Boom(x int64) int64    { f.on("Boom", x); panic("boom") }
